@@ -391,7 +391,11 @@ class CBEval(AutoEvaluator):
             seen += 1
         return v
 
+    hint = None
+
     def new_buf(self, name, init, st, shape=None):
+        if name == "@" and self.hint:
+            name = self.hint          # readable ids only: the array is an object, not a name
         self.w.nbuf += 1
         bid = f"{name}#{self.w.nbuf}"
         b = Buf(bid, name, init, shape, st)
@@ -826,7 +830,7 @@ class CBEval(AutoEvaluator):
         if isinstance(func, ast.Attribute):
             root = d.split(".")[0] if d else None
             if d is None or self.is_object_root(root):
-                recv = self.ev(func.value)
+                recv = self.ev_ref(func.value) if func.attr in ("copy", "astype") else self.ev(func.value)
                 name = "." + func.attr
         elif isinstance(func, ast.Name):
             fv = self.env.get(func.id)
@@ -835,7 +839,7 @@ class CBEval(AutoEvaluator):
         elif name is None:
             return Unknown(f"call of {ast.unparse(func)[:40]}")
         # ---- arguments, evaluated once (an array handed to a function that is followed is handed over as the object it is)
-        followed = recv is None and name in self.inline
+        followed = (recv is None and name in self.inline) or name in LIKE
         pos, kws = [], {}
         if recv is not None:
             pos.append(recv)
@@ -978,7 +982,8 @@ class CBEval(AutoEvaluator):
             return tuple(pos[0]) if isinstance(pos[0], PyList) else pos[0]
         if name in (".copy", ".astype") and n >= 1 and is_rat(pos[0]):
             b0 = self.buf_of(pos[0])
-            return self.new_buf("@", pos[0], node, b0.shape if b0 is not None else ("like", pos[0])).sym      # a new array with the same elements
+            x = self.deref(pos[0])
+            return self.new_buf("@", x, node, b0.shape if b0 is not None else ("like", x)).sym      # a new array with the same elements
         if name.startswith(".") and name[1:] in IDENT_METHODS and n >= 1:
             return pos[0]
         if name in ("np.sum", "sum") and n >= 1 and isinstance(pos[0], tuple):
@@ -1256,7 +1261,11 @@ class CBEval(AutoEvaluator):
                     self._assign(t, UNINIT if fill is None else F.const(fill), st, shape=tuple(shp[1:]))
                 return
         if isinstance(st, ast.Assign):
-            v = self.ev_ref(st.value)
+            self.hint = st.targets[0].id if isinstance(st.targets[0], ast.Name) else None
+            try:
+                v = self.ev_ref(st.value)
+            finally:
+                self.hint = None
             shape = self._alloc_shape(st.value)
             for t in st.targets:
                 self._assign(t, v, st, shape=shape)
@@ -1658,17 +1667,14 @@ def signature(fn):
 
 
 # ------------------------------------------------------------------------------------------------ the source as it is written
-_PRISTINE = {}
-
-
 def pristine(ctx, rel):
     """{qualified name: FunctionDef} and the module tree of `rel`, parsed as written.  The shared source model rewrites the trees it hands out
     (locals renamed back to reference names, temporaries substituted back - verifier/e1_names.py, e1_canon.py); the substitution treats a
     dict / list display like a pure expression and duplicates it at every use, which loses the identity of a mutable object.  The rules of this
     property decide on values and need neither rewriting, so they read the file as it is."""
-    key = (id(ctx.src), rel)
-    if key in _PRISTINE:
-        return _PRISTINE[key]
+    cache = ctx.src.__dict__.setdefault("_c06_pristine", {})      # per source model (one per checked tree), never global
+    if rel in cache:
+        return cache[rel]
     mod = ctx.src.mod(rel)
     tree = ast.parse(mod.source, filename=mod.path)
     funcs = {}
@@ -1690,7 +1696,7 @@ def pristine(ctx, rel):
             else:
                 index(ch, prefix)
     index(tree, "")
-    _PRISTINE[key] = (funcs, tree)
+    cache[rel] = (funcs, tree)
     return funcs, tree
 
 
